@@ -33,6 +33,18 @@ def run_lp(case):
         bf = [v / d for v, d in zip(b, rowden)]
         cf = [v / cden for v in c]
     events = []
+    pad = case.get("pad")
+    if pad:
+        # hundreds of implied rows (row i with a right-hand side raised by t >= 0) listed before the real ones: the same feasible
+        # set and optimum, but the binding rows - where the pivots happen - sit beyond row index 256
+        Ap = [list(Af[i]) for i, _ in pad] + Af
+        bp = [bf[i] + (float(t) / (rowden[i] if rowden else 1) if isinstance(bf[i], float) else t) for i, t in pad] + bf
+        for minimize in (True, False):
+            try:
+                events.append(_ev("simplex", solve_lp(cf, Ap, bp, minimize=minimize), minimize, n))
+            except Exception as ex:  # noqa: BLE001
+                events.append({"e": "raise", "solver": "simplex", "what": type(ex).__name__})
+        return {"A": A, "b": b, "c": c, "m": m, "n": n, "cden": cden, "events": events, "input": case}
     for solver, fn in (("simplex", solve_lp), ("interior", solve_lp_interior)):
         for minimize in (True, False):
             try:
@@ -162,6 +174,9 @@ def gen(rng, big=False):
         A = [[abs(v) for v in row] for row in A]      # bounded-looking
         b = [abs(v) + 1 for v in b]
     case = {"A": A, "b": b, "c": c, "floats": rng.random() < 0.5}
+    if rng.random() < 0.04:
+        k = rng.randint(258, 300)
+        case["pad"] = [[rng.randrange(m), rng.choice([0, 1, 1, 2, 5])] for _ in range(k)]
     if rng.random() < 0.3:          # small rational data: rows and objective divided by powers of two
         case["rowden"] = [rng.choice([1, 2, 4]) for _ in range(m)]
         case["cden"] = rng.choice([1, 2, 4])
